@@ -105,7 +105,30 @@ fn sp(b: Bound<usize>) -> Bound<SongPosition> {
     }
 }
 
-fn all_cases() -> Vec<Case> {
+/// string parameter values: the 8 above; thorough adds every string of length <= 2 over 9 byte
+/// classes that the encoder is known to carry (strings with a quote or backslash but no blank are
+/// the known finding C06/unquoted-escape and stay out)
+fn strs(tier: Tier) -> Vec<&'static str> {
+    let mut v: Vec<&'static str> = STRS.to_vec();
+    if tier == Tier::Thorough {
+        for x in strings_over(&["a", " ", "\t", "\"", "'", "\\", "\u{e9}", "~", "\r"], 2) {
+            let special = x.contains('"') || x.contains('\'') || x.contains('\\');
+            if special && !(x.contains(' ') || x.contains('\t') || x.contains('\r')) {
+                continue;
+            }
+            if !v.contains(&x.as_str()) {
+                v.push(Box::leak(x.into_boxed_str()));
+            }
+        }
+    }
+    v
+}
+
+fn all_cases(tier: Tier) -> Vec<Case> {
+    let pool = strs(tier);
+    // the triple loop (sticker set / find ... where) over the full thorough pool would be 10^6 cases
+    // per command: the third parameter runs over the 8 basic strings
+    let pool3: Vec<&'static str> = pool.iter().copied().take(8).collect();
     let mut v: Vec<Case> = Vec::new();
     // argument-less commands
     v.push(case("ClearQueue", c::ClearQueue, "clear", vec![]));
@@ -133,7 +156,7 @@ fn all_cases() -> Vec<Case> {
     v.push(case("TagTypes::enable_all", c::TagTypes::enable_all(), "tagtypes", vec![s("all")]));
     v.push(case("TagTypes::disable_all", c::TagTypes::disable_all(), "tagtypes", vec![s("clear")]));
     // one string
-    for x in STRS {
+    for &x in &pool {
         v.push(case(format!("ClearPlaylist({x:?})"), c::ClearPlaylist(x), "playlistclear", vec![s(x)]));
         v.push(case(format!("DeletePlaylist({x:?})"), c::DeletePlaylist(x), "rm", vec![s(x)]));
         v.push(case(format!("SaveQueueAsPlaylist({x:?})"), c::SaveQueueAsPlaylist(x), "save", vec![s(x)]));
@@ -146,19 +169,25 @@ fn all_cases() -> Vec<Case> {
         } else {
             v.push(case(format!("ListAllIn::directory({x:?})"), c::ListAllIn::directory(x), "listallinfo", vec![s(x)]));
         }
-        v.push(case(format!("Update::uri({x:?})"), c::Update::new().uri(x), "update", vec![s(x)]));
-        v.push(case(format!("Rescan::uri({x:?})"), c::Rescan::new().uri(x), "rescan", vec![s(x)]));
+        if x.is_empty() {
+            // (`update [URI]` / `rescan [URI]`: as for listallinfo, no URI and the empty URI both mean everything)
+            v.push(case2("Update::uri(\"\")", c::Update::new().uri(x), "update", vec![s(x)], vec![]));
+            v.push(case2("Rescan::uri(\"\")", c::Rescan::new().uri(x), "rescan", vec![s(x)], vec![]));
+        } else {
+            v.push(case(format!("Update::uri({x:?})"), c::Update::new().uri(x), "update", vec![s(x)]));
+            v.push(case(format!("Rescan::uri({x:?})"), c::Rescan::new().uri(x), "rescan", vec![s(x)]));
+        }
         v.push(case(format!("Add::uri({x:?})"), c::Add::uri(x), "addid", vec![s(x)]));
         v.push(case(format!("StickerList({x:?})"), c::StickerList::new(x), "sticker", vec![s("list"), s("song"), s(x)]));
         v.push(case(format!("LoadPlaylist::name({x:?})"), c::LoadPlaylist::name(x), "load", vec![s(x)]));
-        for y in STRS {
+        for &y in &pool {
             v.push(case(format!("RenamePlaylist({x:?},{y:?})"), c::RenamePlaylist::new(x, y), "rename", vec![s(x), s(y)]));
             v.push(case(format!("AddToPlaylist({x:?},{y:?})"), c::AddToPlaylist::new(x, y), "playlistadd", vec![s(x), s(y)]));
             v.push(case(format!("SendChannelMessage({x:?},{y:?})"), c::SendChannelMessage::new(x, y), "sendmessage", vec![s(x), s(y)]));
             v.push(case(format!("StickerGet({x:?},{y:?})"), c::StickerGet::new(x, y), "sticker", vec![s("get"), s("song"), s(x), s(y)]));
             v.push(case(format!("StickerDelete({x:?},{y:?})"), c::StickerDelete::new(x, y), "sticker", vec![s("delete"), s("song"), s(x), s(y)]));
             v.push(case(format!("StickerFind({x:?},{y:?})"), c::StickerFind::new(x, y), "sticker", vec![s("find"), s("song"), s(x), s(y)]));
-            for z in STRS {
+            for &z in &pool3 {
                 v.push(case(format!("StickerSet({x:?},{y:?},{z:?})"), c::StickerSet::new(x, y, z), "sticker", vec![s("set"), s("song"), s(x), s(y), s(z)]));
                 v.push(case(format!("StickerFind({x:?},{y:?}).where_eq({z:?})"), c::StickerFind::new(x, y).where_eq(z), "sticker", vec![s("find"), s("song"), s(x), s(y), s("="), s(z)]));
                 v.push(case(format!("StickerFind({x:?},{y:?}).where_gt({z:?})"), c::StickerFind::new(x, y).where_gt(z), "sticker", vec![s("find"), s("song"), s(x), s(y), s(">"), s(z)]));
@@ -273,6 +302,12 @@ fn all_cases() -> Vec<Case> {
         v.push(case(format!("CountGrouped::new({n}).filter"), c::CountGrouped::new(t.clone()).filter(filter.clone()), "count", vec![A::Filter, s("group"), s(n)]));
     }
     v.push(case("Count::new", c::Count::new(filter.clone()), "count", vec![A::Filter]));
+    // groupings that contain the listed tag itself, or one tag twice: sent as given
+    v.push(case("List::new(Album).group_by([Album])", c::List::new(Tag::Album).group_by([Tag::Album]), "list", vec![s("Album"), s("group"), s("Album")]));
+    v.push(case("List::new(Album).group_by([AlbumArtist, Album])", c::List::new(Tag::Album).group_by([Tag::AlbumArtist, Tag::Album]), "list", vec![s("Album"), s("group"), s("AlbumArtist"), s("group"), s("Album")]));
+    v.push(case("List::new(Album).group_by([Other(Album), Date])", c::List::new(Tag::Album).group_by([Tag::Other("Album".into()), Tag::Date]), "list", vec![s("Album"), s("group"), s("Album"), s("group"), s("Date")]));
+    v.push(case("List::new(Title).group_by([Date, Date])", c::List::new(Tag::Title).group_by([Tag::Date, Tag::Date]), "list", vec![s("Title"), s("group"), s("Date"), s("group"), s("Date")]));
+    v.push(case("CountGrouped::new(Artist) with a filter on Artist", c::CountGrouped::new(Tag::Artist).filter(Filter::tag(Tag::Artist, "x")), "count", vec![A::Filter, s("group"), s("Artist")]));
     v.extend(builder_histories());
     let tags = [Tag::Album, Tag::Title, Tag::MusicBrainzWorkId];
     v.push(case("TagTypes::disable", c::TagTypes::disable(&tags), "tagtypes", vec![s("disable"), s("Album"), s("Title"), s("MUSICBRAINZ_WORKID")]));
@@ -501,7 +536,7 @@ pub fn run(tier: Tier) -> i32 {
     ctx.assume("the expectation table (command word, argument count / positions / meaning per constructor path) is written from the MPD protocol reference");
     ctx.assume("ranges are compared as sets of positions below usize::MAX (saturation at the maximum is accepted by the statement); strings with quotes/backslashes/control bytes belong to C06");
     ctx.assume("durations beyond f64's exact millisecond range are outside the domain");
-    let cases = all_cases();
+    let cases = all_cases(tier);
     let mut viol = Violations::default();
     let mut nontrivial = 0u64;
     let mut words = std::collections::BTreeSet::new();
@@ -532,7 +567,7 @@ pub fn run(tier: Tier) -> i32 {
 
 pub fn replay(case: &Value) -> i32 {
     let what = case["what"].as_str().unwrap_or("");
-    for cs in all_cases() {
+    for cs in all_cases(Tier::Thorough) {
         if cs.what == what {
             println!("replay C15: {what}");
             return match check_case(&cs, true) {
